@@ -114,7 +114,7 @@ func runC16(c *core.Ctx) error {
 	avoid := c.KF.Avoid()
 	total := c.Pick(1200, 8000)
 	chunks := c.Pick(12, 40)
-	c.Ev.Coverage.Rule = "cases = (degenerate schema drawn by rapid: type cycles through singular/repeated/map/oneof fields, mutual cycles, chains and nested definitions to depth 60, 100-400 fields, very long names, well-known types, empty messages/services, shared request types, missing go_package, odd identifiers; one case in two also carries one misused annotation from the C12 catalogue at a random placement) x plugin x parameters (generate_mock, format, paths, and malformed parameter strings: bare words, stray commas, empty keys or values); each case is one plugin process judged on exit status, stdout, stderr, wall time (20 s, re-run alone before it counts) and peak RSS (2 GiB). Non-trivial = schema has a type cycle, depth >= 8, >= 100 fields, an empty service, a well-known type or a missing go_package; distinct by (schema, plugin, parameter)."
+	c.Ev.Coverage.Rule = "cases = (degenerate schema drawn by rapid: type cycles through singular/repeated/map/oneof fields, mutual cycles, chains and nested definitions to depth 60, 100-400 fields, very long names, well-known types, empty messages/services, shared request types, missing go_package, odd identifiers; one case in two also carries one misused annotation from the C12 catalogue at a random placement, in 3 of 5 of those cases on a message that is itself the response or request type of an RPC) x plugin x parameters (generate_mock, format, paths, and malformed parameter strings: bare words, stray commas, empty keys or values); each case is one plugin process judged on exit status, stdout, stderr, wall time (20 s, re-run alone before it counts) and peak RSS (2 GiB). Non-trivial = schema has a type cycle, depth >= 8, >= 100 fields, an empty service, a well-known type or a missing go_package; distinct by (schema, plugin, parameter)."
 	c.Ev.Assumptions = []string{"termination is observed with a bound (20 s, 2 GiB), not proved", "descriptor well-formedness is enforced by the generator and protodesc.NewFiles, standing in for protoc"}
 	for k := 0; k < chunks; k++ {
 		var last *c16Case
